@@ -644,6 +644,125 @@ def applyBlock (C : Crypto) (reg : Option (List (List Nat × Nat))) (r : Replica
 def initReplica (C : Crypto) (shared : Bool) (proposer : List Nat) (ts : Nat) : Replica :=
   { state := [], chain := initChain C [] proposer ts, shared := shared }
 
+/-! ### transaction keys as the client names them: the reserved `chain:` prefix (repo commit b368f92a)
+
+    The chain keeps its block records (`chain:block:<height>`) and its height record (`chain:meta`) in the very
+    store its transactions write to, and `apply_transaction_to_store` has no notion of a reserved key: it calls
+    `store.put(key, {data})` / `store.delete(key)` on whatever string the transaction names.  What keeps the two
+    key spaces apart is one check in `TransactionWorkspace::add_operation`
+    (`op.storage_key().starts_with("chain:")` ⇒ `TransactionFailed`), added by repo commit b368f92a.  The typed
+    `Tx` above (keys are data keys by construction) is the model of the transactions that check lets through;
+    `RawTx` is a transaction as a client hands it in, naming ANY record of the store. -/
+
+/-- `storage_key().starts_with("chain:")`.  (Other strings under the prefix that name no record of the chain are
+    refused alike; the typed store has no key for them — the harness checks them on the real code.) -/
+def SKey.reserved : SKey → Bool
+  | .data _ => false
+  | _ => true
+
+/-- `Transaction::{Put, Delete, CompareAndSwap}` as handed to `add_operation`: the key is any store key -/
+inductive RawTx where
+  | put (k : SKey) (v : Nat)
+  | del (k : SKey)
+  | cas (k : SKey) (e : Option Nat) (v : Nat)
+deriving DecidableEq, Repr
+
+/-- `Transaction::storage_key` -/
+def RawTx.key : RawTx → SKey
+  | .put k _ => k
+  | .del k => k
+  | .cas k _ _ => k
+
+/-- a transaction on a data key, as a raw transaction -/
+def Tx.raw : Tx → RawTx
+  | .put k v => .put (.data k) v
+  | .del k => .del (.data k)
+  | .cas k e v => .cas (.data k) e v
+
+/-- the typed transaction of a raw transaction whose key is not reserved; `none` for a reserved key -/
+def RawTx.narrow : RawTx → Option Tx
+  | .put (.data k) v => some (.put k v)
+  | .del (.data k) => some (.del k)
+  | .cas (.data k) e v => some (.cas k e v)
+  | _ => none
+
+/-- the `data` field `CompareAndSwap` compares with, of whatever record lies under the key (`None` when the key is
+    absent or the record — a block, the height record — has no such field) -/
+def rawDataAt (s : List (SKey × SVal)) (k : SKey) : Option Nat :=
+  match sget s k with
+  | some (.data x) => some x
+  | _ => none
+
+/-- `apply_transaction_to_store` for whatever key the transaction names (the function the fix did NOT change) -/
+def applyRawTx (s : List (SKey × SVal)) : RawTx → List (SKey × SVal)
+  | .put k v => sput s k (.data v)
+  | .del k => sdel s k
+  | .cas k e v => if rawDataAt s k = e then sput s k (.data v) else s
+
+def applyRawTxs (s : List (SKey × SVal)) (txs : List RawTx) : List (SKey × SVal) :=
+  txs.foldl applyRawTx s
+
+inductive AddRes where
+  | ok
+  /-- "transaction is not active" -/
+  | notActive
+  /-- "key uses the reserved prefix \"chain:\"" -/
+  | reserved
+deriving DecidableEq, Repr
+
+/-- `TransactionWorkspace::add_operation` as it is now: the state check, then the reserved-prefix check (repo commit
+    b368f92a), then the operation is recorded (`addOp`) -/
+def addOperation (n : Node) (w : Nat) (t : RawTx) : Node × AddRes :=
+  match findWs n.wss w with
+  | some ws =>
+    if ws.state ≠ .active then (n, .notActive)
+    else match t.narrow with
+      | none => (n, .reserved)
+      | some t' => ((addOp n w t').1, .ok)
+  | none => (n, .notActive)
+
+/-- every client call of a sequential history, `add_operation` with ANY key included -/
+inductive OpC where
+  | call (o : Op)
+  | add (w : Nat) (t : RawTx)
+  | reopen (ts : Nat)
+deriving DecidableEq, Repr
+
+def stepOpC (C : Crypto) (n : Node) : OpC → Node
+  | .call o => stepOp C n o
+  | .add w t => (addOperation n w t).1
+  | .reopen ts => reopenNode C n ts
+
+def runOpsC (C : Crypto) (n : Node) (ops : List OpC) : Node := ops.foldl (stepOpC C) n
+
+/-! #### before repo commit b368f92a (kept only for the regression witness in `Props3.lean`)
+
+    `add_operation` had the state check only, so a workspace could hold a transaction on `chain:block:<h>` or
+    `chain:meta`, and `commit` applied it like any other.  `commitOld` is `TensorChain::commit` of a workspace
+    holding the raw operations `ops`, run without interference, with a zero delta (no conflict check, nothing
+    merged): apply, state root, build + sign, `Chain::append`, restore on failure. -/
+
+/-- the block entry of a raw transaction: the scan code of the key stands for the key string (injective) -/
+def RawTx.entry : RawTx → Tx
+  | .put k v => .put k.code v
+  | .del k => .del k.code
+  | .cas k e v => .cas k.code e v
+
+def commitOld (C : Crypto) (n : Node) (ops : List RawTx) (ts : Nat) : Node × CommitRes :=
+  if ops = [] then (n, .emptyOk)
+  else if ops.length > n.cfg.maxTxs then (n, .tooMany)
+  else
+    let snap := n.chain.store
+    let s1 := applyRawTxs snap ops
+    let txs := ops.map RawTx.entry
+    let h0 : Header :=
+      { height := n.chain.height + 1, prevHash := n.chain.tip, txRoot := txRoot C txs, stateRoot := stateRoot C s1,
+        embedding := embBytes [0], codes := [], timestamp := ts, proposer := n.cfg.nodeId, signature := [] }
+    let h : Header := { h0 with signature := C.sign n.cfg.key h0.bytes }
+    match append C n.cfg.registry { n.chain with store := s1 } { header := h, txs := txs, sigs := [] } with
+    | .ok c' => ({ n with chain := c' }, .ok c'.height)
+    | .error e => ({ n with chain := { n.chain with store := snap } }, .appendFailed e)
+
 /-! ### the driver's concrete crypto: injective encodings -/
 
 def drvCrypto : Crypto :=
